@@ -105,6 +105,12 @@ def gen_rounds(seed, tier, run):
             vals = [rng.choice([0.0, 1.0, -2.5, 3.25, 10.0, 0.125, -7.0, 100.5]) for _ in range(n)]
             fs = [(format(v, f".{prec}f") if prec is not None else (repr(v)[:-2] if repr(v).endswith(".0") else repr(v))) for v in vals]
             out3.append(f"display@f64 {sarr(sh, fs)} {opt(prec)} z{alt}")
+        # values with a fractional part at every precision (the raw values go to the implementation, their expected
+        # renderings to the model; none is a rounding tie at the precisions used)
+        for prec, alt in itertools.product((0, 1, 2, 5), (0, 1)):
+            vals = [rng.choice([0.4, 1.6, -0.6, 3.75, 10.49, 0.125, -7.3, 100.501, 2.0, 1e-3, 123456.789]) for _ in range(n)]
+            fs = [format(v, f".{prec}f") for v in vals]
+            out3.append(f"display@f64 {sarr(sh, fs)} {opt(prec)} z{alt} {sarr(sh, [repr(v) for v in vals])}")
         out3.append(f"display@str {sarr(sh, [rng.choice(['ab', 'c d', 'x', '']) for _ in range(n)])} n z{rng.randint(0, 1)}")
         out3.append(f"display@bool {sarr(sh, [rng.choice(['true', 'false']) for _ in range(n)])} n z{rng.randint(0, 1)}")
     atoms = ["1", "-2", "ab", "x y", "3.5", "", "true", "Z9", " lead", "trail ", " ", "  both  ", "\tt", "a  b"]
